@@ -129,9 +129,53 @@ def harness(it, px, params):
         it.call('register_infix_op', [mkstr(o), P_[o], Enum('InfixOpType', 0, 'CALC'), c02.assoc_enum(A[o]),
                                       ArcV(Cell(c02.echo_handler(o), 'h'))])
     rec = {'family': fam, 'text': text}
+    cause, detail, tj = roundtrip(it, text, rec)
+    m = px.get_model()
+    table = {o: (m.eval(P_[o], model_completion=True).as_signed_long(), 'LEFT' if A[o] else 'RIGHT') for o in used}
+    rec['table'] = table
+    rec['outcome'] = cause or 'roundtrip'
+    px.cover('tree-' + fam)
+    if cause:
+        px.finding({'key': 'C12|%s|%s' % (cause, text), 'desc': 'expr() of the AST of `%s` renders `%s`: %s %s' % (text, rec.get('expr'), cause, detail or ''),
+                    'text': text, 'table': table, 'family': fam, 'cause': cause})
+        return rec
+    if used and fam in params.get('rereg', ()):
+        # history sensitivity: re-register the operators with fresh symbolic attributes, render and re-parse again
+        P2, A2 = {}, {}
+        for o in used:
+            p2 = px.bv('q_' + o, 32)
+            px.add(z3.And(p2 >= 1, p2 <= PMAX))
+            left2 = it.truth(px.bool('left2_' + o))
+            P2[o], A2[o] = p2, left2
+        for a, b in itertools.combinations(used, 2):
+            if A2[a] != A2[b]:
+                px.add(P2[a] != P2[b])
+        for o in used:
+            for name in set(toks):
+                if name in rf.BUILTIN_INFIX:
+                    bp, bassoc, _ = rf.BUILTIN_INFIX[name]
+                    if (bassoc == 'LEFT') != A2[o]:
+                        px.add(P2[o] != bp)
+        px.get_model()
+        for o in used:
+            it.call('register_infix_op', [mkstr(o), P2[o], Enum('InfixOpType', 0, 'CALC'), c02.assoc_enum(A2[o]),
+                                          ArcV(Cell(c02.echo_handler(o), 'h'))])
+        rec2 = {}
+        cause2, detail2, _ = roundtrip(it, text, rec2)
+        px.cover('reregistered-' + fam)
+        if cause2:
+            m = px.get_model()
+            t2 = {o: (m.eval(P2[o], model_completion=True).as_signed_long(), 'LEFT' if A2[o] else 'RIGHT') for o in used}
+            t1 = {o: (m.eval(P_[o], model_completion=True).as_signed_long(), 'LEFT' if A[o] else 'RIGHT') for o in used}
+            px.finding({'key': 'C12|%s-after-reregistration|%s' % (cause2, text), 'desc': 'after re-registering the operators with %s (before: %s) expr() of the AST of `%s` renders `%s`: %s' % (t2, t1, text, rec2.get('expr'), cause2),
+                        'text': text, 'table': t2, 'table_before': t1, 'family': fam, 'cause': cause2})
+    return rec
+
+
+def roundtrip(it, text, rec):
+    """parse `text`, render it, re-parse: -> (cause|None, detail, ast json)"""
     r = api.parse(it, text)
     if r.kind != 'ok':
-        # the fully parenthesised source itself must parse (it is a sentence of the grammar)
         rec['outcome'] = 'source-' + r.kind
         raise ModelError('tree text `%s` did not parse: %s %s' % (text, r.kind, r.detail or render.error_variant(r.value)))
     t = r.value
@@ -157,15 +201,7 @@ def harness(it, px, params):
                 e2 = api.expr(it, r2.value)
                 if e2.kind != 'ret' or render.hexs(e2.value) != es:
                     cause = 'not-idempotent'
-    m = px.get_model()
-    table = {o: (m.eval(P_[o], model_completion=True).as_signed_long(), 'LEFT' if A[o] else 'RIGHT') for o in used}
-    rec['table'] = table
-    rec['outcome'] = cause or 'roundtrip'
-    px.cover('tree-' + fam)
-    if cause:
-        px.finding({'key': 'C12|%s|%s' % (cause, text), 'desc': 'expr() of the AST of `%s` renders `%s`: %s %s' % (text, rec.get('expr'), cause, detail or ''),
-                    'text': text, 'table': table, 'family': fam, 'cause': cause})
-    return rec
+    return cause, detail, tj
 
 
 def native_roundtrip_broken(o):
@@ -179,15 +215,15 @@ def native_roundtrip_broken(o):
     return rp.get('ast') != o.get('ast') or rp.get('expr') != o.get('expr')
 
 
-def scenario(text, table):
-    steps = c02.scenario(text, table)
+def scenario(text, table, before=None):
+    steps = c02.scenario(text, table, before)
     steps[-1]['want'] = ['ast', 'expr', 'reparse']
     return steps
 
 
 def run(ctx):
     tpls = trees(ctx.tier)
-    params = {'trees': tpls, 'seed': ctx.seed, 'timeout_ms': 10000 if ctx.tier == 'quick' else 60000, 'step_limit': 400000}
+    params = {'trees': tpls, 'rereg': ('bin-left', 'bin-right') if ctx.tier == 'quick' else ('bin-left', 'bin-right', 'bin-deep', 'not', 'cond'), 'seed': ctx.seed, 'timeout_ms': 10000 if ctx.tier == 'quick' else 60000, 'step_limit': 400000}
     eng = ctx.engine('dev')
     recs, summ = ex.explore(eng, harness, params, prepare=prepare)
     inconclusive = []
@@ -215,7 +251,8 @@ def run(ctx):
     for key, fs in sorted(groups.items()):
         f = fs[0]
         table = {o: (int(p), a) for o, (p, a) in f['table'].items()}
-        sc = scenario(f['text'], table)
+        before = {o: (int(p), a) for o, (p, a) in f['table_before'].items()} if f.get('table_before') else None
+        sc = scenario(f['text'], table, before)
         od = ctx.native(sc, 'dev')[-1]
         orl = ctx.native(sc, 'release')[-1]
         validated += 1
